@@ -14,7 +14,11 @@ FIXED_MASK = np.array([[False, True, False], [False, False, True]])
 
 def make_payload(case, grid=None):
     g, f = case["grid"], case["form"]
-    if g == "g23":
+    if g == "g32r":
+        base = BASE.T.copy()
+        arr = {"shaped": base, "timeaxis": base[None, ...], "flat": base.ravel(order=grid.order),
+               "list": base.tolist()}[f]
+    elif g == "g23":
         # a flat array lists the field in the grid's memory order
         arr = {"shaped": BASE.copy(), "timeaxis": BASE.copy()[None, ...],
                "flat": BASE.copy().ravel(order=grid.order),
@@ -32,12 +36,14 @@ def make_payload(case, grid=None):
 
 
 def run_case(case):
-    grid = {"g23": fm.UniformGrid((3, 4)), "nogrid": fm.NoGrid(), "nogrid1": fm.NoGrid(1)}[case["grid"]]
+    grid = {"g23": fm.UniformGrid((3, 4)), "g32r": fm.UniformGrid((3, 4), axes_reversed=True),
+            "nogrid": fm.NoGrid(), "nogrid1": fm.NoGrid(1)}[case["grid"]]
     out = fm.Output(name="Out")
     inp = fm.Input(name="In")
     out >> inp  # pylint: disable=pointless-statement
     inp.ping()
-    kw = {"mask": FIXED_MASK} if case.get("om") == "fixed" else {}
+    fixed_mask = FIXED_MASK.T if case["grid"] == "g32r" else FIXED_MASK
+    kw = {"mask": fixed_mask} if case.get("om") == "fixed" else {}
     out.push_info(fm.Info(time=day(0), grid=grid, units=case["ou"], **kw))
     inp.exchange_info(fm.Info(time=day(0), grid=grid, units=case["iu"] or None))
     obs = {"res": "ok", "shape": [], "num": 0, "den": 1, "units": "", "masked": False, "alias": ""}
@@ -48,20 +54,29 @@ def run_case(case):
         mag = fm.data.get_magnitude(data)
         obs["shape"] = list(mag.shape)
         obs["masked"] = bool(np.ma.isMaskedArray(mag) and np.ma.getmaskarray(mag).any())
-        if case.get("om") == "fixed" and not np.array_equal(np.ma.getmaskarray(mag)[0], FIXED_MASK):
+        if case.get("om") == "fixed" and not np.array_equal(np.ma.getmaskarray(mag)[0], fixed_mask):
             obs["masked"] = False       # not exactly the mask of the metadata
         first = float(np.ma.getdata(mag).ravel()[0])
-        fr = Fraction(first / 2.0).limit_denominator(10 ** 6)
-        if abs(float(fr) - first / 2.0) > 1e-9 * max(1.0, abs(first)):
+        fr = Fraction(first).limit_denominator(10 ** 6)
+        if abs(float(fr) - first) > 1e-9 * max(1.0, abs(first)):
             fr = Fraction(-1)
-        ref = np.ma.getdata(np.asarray(BASE if case["grid"] == "g23" else [2.0, 4.0, 8.0][:mag.size])).ravel() \
-            if case["grid"] != "nogrid" else np.array([2.0])
-        got = np.ma.getdata(mag).ravel()
-        keep = ~np.ma.getmaskarray(mag).ravel()      # masked cells carry no value
-        if not np.allclose(got[keep], (ref[:got.size] * float(fr))[keep], rtol=1e-9):
-            fr = Fraction(-2)       # element order / values not preserved
+        temperature = case["ou"] in ("K", "degC")
+        if not temperature:
+            # every element must be the published field times one common factor (first element is 2)
+            if case["grid"] == "g23":
+                ref = BASE.ravel()
+            elif case["grid"] == "g32r":
+                ref = BASE.T.ravel()
+            elif case["grid"] == "nogrid":
+                ref = np.array([2.0])
+            else:
+                ref = np.array([2.0, 4.0, 8.0])
+            got = np.ma.getdata(mag).ravel()
+            keep = ~np.ma.getmaskarray(mag).ravel()      # masked cells carry no value
+            if not np.allclose(got[keep], (ref[:got.size] * float(fr) / 2.0)[keep], rtol=1e-9):
+                fr = Fraction(-2)       # element order / values not preserved
         obs["num"], obs["den"] = fr.numerator, fr.denominator
-        obs["units"] = f"{fm.data.get_units(data):~}"
+        obs["units"] = {"°C": "degC"}.get(f"{fm.data.get_units(data):~}", f"{fm.data.get_units(data):~}")
     except Exception as e:  # pylint: disable=broad-except
         obs["res"] = "err:" + type(e).__name__
     if obs["res"] == "ok":
